@@ -217,6 +217,10 @@ def jobs(tier, seed):
         js.append({'harness': 'rr', 'weight': 80, 'opts': {'max_paths': 8000},
                    'cfg': {'kind': 'DRR', 'rate': 8192, 'table': {7: 1, 8: 1}, 'flows': pat, 'sorts': 'int', 'burst': [0, 1, 1, 1, 1],
                            'flow2class': {5: 7, 6: 7, 8: 8}, 'smax': 1600}})
+    # a DRR visit of 37 small packets (1500 bytes of credit, 40-byte packets), another class waiting
+    js.append({'harness': 'rr', 'weight': 60, 'opts': {'max_paths': 2000},
+               'cfg': {'kind': 'DRR', 'rate': 8192, 'table': {0: 1, 1: 1}, 'flows': [0] * 40 + [1, 1], 'sorts': 'int',
+                       'burst': [0] + [1] * 41, 'sizes': {str(i): 40 for i in range(42)}}})
     # very long visits: a weight of 10 (WRR) and 13 packets handed in at one instant
     for kind, t in (('WRR', {0: 10, 1: 1}), ('RR', {0: 1, 1: 1}), ('WRR', {0: 1, 1: 12})):
         cfg = {'kind': kind, 'rate': 8, 'table': t, 'flows': [0] * 11 + [1, 1] if t[0] >= t[1] else [1] * 11 + [0, 0], 'sorts': 'int',
